@@ -773,7 +773,48 @@ func (c *Ctx) c07Positioned(dir string, first, second []byte) {
 	}
 }
 
+// around the 16-bit boundary of the triangle count: 3.3 MB files, so only the size law, the model's Read and the
+// read → write oracle (no mesh-level lines)
+func (c *Ctx) c07HugeCase(n int) {
+	c.Note(fmt.Sprintf("huge.n=%d", n))
+	const nv = 211
+	pos := make([]vector3.Float64, nv)
+	for v := range pos {
+		pos[v] = vector3.New(float64(v+1), float64(v+1)*0.5, -float64(v+1)-0.25)
+	}
+	idx := make([]int, 3*n)
+	for i := 0; i < n; i++ {
+		idx[3*i], idx[3*i+1], idx[3*i+2] = i%nv, (i*7+1)%nv, (i*13+2)%nv
+	}
+	m := modeling.NewTriangleMesh(idx).SetFloat3Attribute(modeling.PositionAttribute, pos)
+	var buf bytes.Buffer
+	if err := stl.WriteMesh(&buf, m); err != nil {
+		c.Emit("c07.holds.size", fmt.Sprintf("%d -", n), "true")
+		return
+	}
+	bs := buf.Bytes()
+	c.Emit("c07.holds.size", fmt.Sprintf("%d %s", n, hx(bs)), "true")
+	c.Emit("c07.read", hx(bs), c07ReadAns(bs))
+	out := Guard(func() string {
+		b, err := stl.Read(bytes.NewReader(bs))
+		if err != nil {
+			return "err"
+		}
+		var o bytes.Buffer
+		if err := stl.Write(&o, *b); err != nil {
+			return "err"
+		}
+		return hx(o.Bytes())
+	})
+	c.Emit("c07.holds.reencode", hx(bs)+" "+out, "true")
+}
+
 func runC07(c *Ctx) {
+	c.c07HugeCase(65536)
+	if c.Tier == "thorough" {
+		c.c07HugeCase(65535)
+		c.c07HugeCase(65537)
+	}
 	if dir, err := os.MkdirTemp("", "verif-c07-"); err == nil {
 		nh := 2 + c.N/100
 		if nh > 20 {
